@@ -179,7 +179,7 @@ def prune_cache(keep=2):
     """Drop fact directories of older tree hashes (disk hygiene)."""
     if not os.path.isdir(CACHE):
         return
-    ds = [os.path.join(CACHE, d) for d in os.listdir(CACHE)]
+    ds = [os.path.join(CACHE, d) for d in os.listdir(CACHE) if d != "c17"]
     ds = [d for d in ds if os.path.isdir(d)]
     ds.sort(key=lambda d: os.path.getmtime(d), reverse=True)
     cur = tree_hash()[:16]
@@ -188,7 +188,7 @@ def prune_cache(keep=2):
         if os.path.basename(d) == cur:
             continue
         n += 1
-        if n >= keep:
+        if n >= keep and time.time() - os.path.getmtime(d) > 1800:      # a recent directory may belong to a concurrent run on another tree
             subprocess.run(["rm", "-rf", d])
 
 
